@@ -224,7 +224,7 @@ func (s *Session) firstAltered(v *View) *Chunk {
 	s.SetView(v)
 	defer s.SetView(cur)
 	for _, c := range s.Chs {
-		if st, _ := s.Probe(c); st != 'g' {
+		if s.own(c) != 'g' {
 			return c
 		}
 	}
